@@ -353,3 +353,49 @@ def strip_visibility(src, ed, idx, log):
     if k >= 0 and sig[k].kind == 'id' and sig[k].text == 'pub':
         return sig[k].start
     return sig[idx].start
+
+
+def postfix_chain_start(sig, i, lo):
+    """Token index where the postfix expression ending at token i (inclusive) starts."""
+    while i >= lo:
+        t = sig[i]
+        if t.kind == 'p' and t.text in ')]' and t.mate >= 0:
+            i = t.mate - 1
+            # call / index: callee or receiver continues to the left
+            if i >= lo and (sig[i].kind in ('id', 'num', 'str') or (sig[i].kind == 'p' and sig[i].text in ')]?')):
+                if sig[i].kind == 'p' and sig[i].text == '!':
+                    i -= 1
+                continue
+            if i >= lo and sig[i].kind == 'p' and sig[i].text == '!':  # macro call
+                i -= 1
+                continue
+            return i + 1
+        elif t.kind in ('id', 'num', 'str', 'char'):
+            i -= 1
+        elif t.kind == 'p' and t.text == '?':
+            i -= 1
+            continue
+        else:
+            return i + 1
+        # after a primary: `.` or `::` continues the chain
+        if i >= lo and sig[i].kind == 'p' and sig[i].text == '.':
+            i -= 1
+            continue
+        if i >= lo + 1 and sig[i].kind == 'p' and sig[i].text == ':' and sig[i - 1].text == ':':
+            i -= 2
+            continue
+        return i + 1
+    return lo
+
+
+def rewrite_try(src, ed, lo, hi, log):
+    """R14: `EXPR?` -> `(match EXPR { Ok(v) => v, Err(e) => return Err(From::from(e)) })` (the language's own desugaring)."""
+    sig = src.sig
+    # innermost-first is not needed: nested `?` inside EXPR are rewritten by their own edits at disjoint positions
+    for i in range(lo, hi):
+        t = sig[i]
+        if t.kind == 'p' and t.text == '?':
+            a = postfix_chain_start(sig, i - 1, lo)
+            ed.insert(sig[a].start, '(match ', 'R14')
+            ed.replace(t.start, t.end, ' { Ok(vx_v) => vx_v, Err(vx_e) => return Err(core::convert::From::from(vx_e)) })', 'R14')
+            log.append(f'R14 {src.rel}:{src.line_of(t.start)} `?` desugared')
